@@ -244,7 +244,7 @@ class Cfg:
         for c in self.clients:
             ru = "." if not c["rwuser"] else "%s:%s" % (hexs(c["rwuser"][0]), hexs(c["rwuser"][1]))
             T.append(";".join(["C", c["name"], str(c["type"]), hexs(c["secret"]), str(c["dup"]), str(c["addttl"]),
-                               c["rwin"] or ".", c["rwout"] or ".", ru, str(int(c["reqma"])), str(int(c["reqmap"]))]))
+                               c["rwin"] or ".", c["rwout"] or ".", ru, str(int(c["reqma"])), str(int(c["reqmap"])), host_token(c["host"])]))
         for s in self.servers:
             T.append(";".join(["S", s["name"], str(s["type"]), hexs(s["secret"]), str(s["rc"]), str(s["ri"]), str(s["ss"]), str(s["addttl"]),
                                s["rwin"] or ".", s["rwout"] or ".", str(s["loopprev"]), str(int(s["reqma"]))]))
@@ -264,6 +264,15 @@ class Cfg:
 
     def cfg_op(self):
         return "cfg %s %s" % (self.write(), " ".join(self.tokens()))
+
+
+def host_token(h):
+    """IPv4 host or prefix text -> <hex>/<prefix>"""
+    import ipaddress
+    if "/" in h:
+        a, p = h.split("/")
+        return ipaddress.IPv4Address(a).packed.hex() + "/" + p
+    return ipaddress.IPv4Address(h).packed.hex() + "/255"
 
 
 PROTO_DEFAULTS = {0: (2, 5, 10), 1: (0, 10, 10), 2: (0, 10, 10), 3: (2, 5, 10)}   # retrycount, retryinterval, dupinterval
